@@ -463,7 +463,11 @@ pub fn scenario(rng: &mut Rng, i: u64) -> (String, FsSpec, TaskSpec) {
             "struct DupM { int a; int b; int a; int b; };\n",
             "void dup_params(int p, float p) {}\n",
             "int ret_mismatch() { float4 v = float4(1, 2, 3, 4); return v; }\nint ret_mismatch2() { return; }\n",
-        ][rng.below(12) as usize];
+            "void dup_cs() {}\nPipeline DupP { ComputeShader = dup_cs; }\nPipeline DupP { ComputeShader = dup_cs; }\n",
+            "void dup_cs2() {}\nPipeline P0 { ComputeShader = dup_cs2; }\n",
+            "Pipeline NoEntry { }\n",
+            "void twice_cs() {}\nPipeline Twice { ComputeShader = twice_cs; ComputeShader = twice_cs; }\n",
+        ][rng.below(16) as usize];
         format!("{src}{tail}")
     } else {
         src
